@@ -77,7 +77,6 @@ func Run(sc Scenario, leak bool) Result {
 			}
 			wait := r.Burst(st.Pubs)
 			if len(paused) > 0 {
-				r.WaitWorkerInSend(0)
 				time.Sleep(time.Duration(200+100*len(st.Pubs)) * time.Microsecond) // perturbation only
 			}
 			for _, s := range paused {
@@ -92,8 +91,6 @@ func Run(sc Scenario, leak bool) Result {
 			wait := r.Burst(st.Pubs)
 			ok = wait()
 			if ok {
-				want := r.Tap.NSends() // all accepted once the loop is idle again
-				_ = want
 				ok = r.WaitLoopIdle() && r.WaitWorkerInSend(1)
 			}
 			if ok {
@@ -111,6 +108,25 @@ func Run(sc Scenario, leak bool) Result {
 				r.Subscribe(false)
 			}
 			ok = wait() && r.Quiesce("joinburst")
+		case "pause":
+			r.Pause(r.Subs[st.I])
+		case "resume":
+			r.Resume(r.Subs[st.I])
+		case "aburst":
+			// publishers with their own cancellable context; nobody waits for them here
+			res.NMsgs += nmsgs(st.Pubs)
+			r.BurstAsync(st.Pubs)
+		case "waitsend":
+			ok = r.WaitWorkerInSend(st.I)
+			if !ok {
+				r.fail("C09:broker:stall:"+r.Cfg.Backend, "no dispatch worker reached sendMsg within %v", Bound)
+			}
+		case "waitpubs":
+			// every asynchronous Publish has returned by itself (buffered back-ends)
+			ok = r.WaitAsync(false)
+		case "cancelpubs":
+			// the publishers' own context is cancelled: every Publish must return
+			ok = r.WaitAsync(true)
 		case "stop":
 			res.Complete = false
 			ok = r.Stop(st.Parent)
